@@ -358,6 +358,7 @@ def _flat_spaces(tier: str, seed: int) -> dict[str, list]:
     # S5: blocks over block bodies (construct in construct)
     l2 = grammar.blocks(n, [(s,) for s in l1s[:: (3 if tier == "quick" else 1)]])
     spaces["S5"] = [((st,), None) for st in l2] + [((st,), None) for st in grammar.liquid_wrap(list(grammar.level1(seed)))]
+    spaces["S5"] += [((st,), None) for st in grammar.mixed_blank_nests(seed, tier == "quick")]
     # S6: value-producing composites in every expression site
     wide = grammar.wide_exprs(n, tier)
     spaces["S6"] = [(prog, None) for e in wide for prog in grammar.expr_sites(n, e)] + [(prog, None) for p in grammar.wide_primitives(n) for prog in grammar.prim_sites(n, p)]
